@@ -163,4 +163,94 @@ theorem lookup_eq_some_of_mem {l : List (Nat × Pt)} (hnd : (l.map (·.1)).Nodup
       rw [this]
       exact ih hnd.2 hmem
 
+/-! ### `rekey` (the renumbering done by `Op.rebuild`) -/
+
+theorem rekey_nil (b : Nat) : rekey b [] = [] := rfl
+
+theorem rekey_shift (b : Nat) (vs : List (Nat × Pt)) (n : Nat) :
+    (vs.zipIdx (n + 1)).map (fun (v, i) => (b + i, v.2))
+      = (vs.zipIdx n).map (fun (v, i) => (b + 1 + i, v.2)) := by
+  induction vs generalizing n with
+  | nil => rfl
+  | cons v vs ih =>
+    simp only [List.zipIdx_cons, List.map_cons, ih (n + 1)]
+    congr 2
+    omega
+
+theorem rekey_cons (b : Nat) (v : Nat × Pt) (vs : List (Nat × Pt)) :
+    rekey b (v :: vs) = (b, v.2) :: rekey (b + 1) vs := by
+  simp only [rekey, List.zipIdx_cons, List.map_cons, Nat.add_zero, Nat.zero_add]
+  rw [rekey_shift b vs 0]
+
+theorem rekey_length (b : Nat) (vs : List (Nat × Pt)) : (rekey b vs).length = vs.length := by
+  simp [rekey]
+
+/-- renumbering keeps the coordinates (in storage order) -/
+theorem rekey_map_snd (b : Nat) (vs : List (Nat × Pt)) :
+    (rekey b vs).map (·.2) = vs.map (·.2) := by
+  induction vs generalizing b with
+  | nil => rfl
+  | cons v vs ih => simp only [rekey_cons, List.map_cons, ih]
+
+/-- the new keys are `b, b+1, …` -/
+theorem rekey_map_fst (b : Nat) (vs : List (Nat × Pt)) :
+    (rekey b vs).map (·.1) = List.range' b vs.length := by
+  induction vs generalizing b with
+  | nil => rfl
+  | cons v vs ih => simp only [rekey_cons, List.map_cons, ih, List.length_cons, List.range'_succ]
+
+/-- the new keys are pairwise distinct -/
+theorem rekey_keys_nodup (b : Nat) (vs : List (Nat × Pt)) : ((rekey b vs).map (·.1)).Nodup := by
+  rw [rekey_map_fst]
+  exact List.nodup_range'
+
+/-- every renumbered vertex carries the coordinates of an old one -/
+theorem exists_of_mem_rekey {b : Nat} {vs : List (Nat × Pt)} {v : Nat × Pt} (h : v ∈ rekey b vs) :
+    ∃ w ∈ vs, w.2 = v.2 := by
+  have : v.2 ∈ (rekey b vs).map (·.2) := List.mem_map.2 ⟨v, h, rfl⟩
+  rw [rekey_map_snd] at this
+  obtain ⟨w, hw, hw'⟩ := List.mem_map.1 this
+  exact ⟨w, hw, hw'⟩
+
+/-- every old vertex survives the renumbering under some key -/
+theorem exists_mem_rekey_of_mem (b : Nat) {vs : List (Nat × Pt)} {w : Nat × Pt} (h : w ∈ vs) :
+    ∃ v ∈ rekey b vs, v.2 = w.2 := by
+  have : w.2 ∈ vs.map (·.2) := List.mem_map.2 ⟨w, h, rfl⟩
+  rw [← rekey_map_snd b] at this
+  obtain ⟨v, hv, hv'⟩ := List.mem_map.1 this
+  exact ⟨v, hv, hv'⟩
+
+/-! ### pairwise relations on keyed lists -/
+
+/-- with distinct keys, "every two different entries are related" gives `Pairwise` -/
+theorem pairwise_of_forall_ne {R : Pt → Pt → Prop} {l : List (Nat × Pt)}
+    (hnd : (l.map (·.1)).Nodup) (h : ∀ a ∈ l, ∀ b ∈ l, a ≠ b → R a.2 b.2) :
+    (l.map (·.2)).Pairwise R := by
+  induction l with
+  | nil => simp
+  | cons v vs ih =>
+    simp only [List.map_cons, List.nodup_cons] at hnd
+    simp only [List.map_cons, List.pairwise_cons]
+    refine ⟨?_, ih hnd.2 (fun a ha b hb => h a (by simp [ha]) b (by simp [hb]))⟩
+    intro q hq
+    obtain ⟨w, hw, rfl⟩ := List.mem_map.1 hq
+    apply h v (by simp) w (by simp [hw])
+    rintro rfl
+    exact hnd.1 (List.mem_map.2 ⟨v, hw, rfl⟩)
+
+/-- a symmetric `Pairwise` relation holds between every two different entries -/
+theorem forall_ne_of_pairwise {R : Pt → Pt → Prop} (hsymm : ∀ p q, R p q → R q p)
+    {l : List (Nat × Pt)} (h : (l.map (·.2)).Pairwise R) :
+    ∀ a ∈ l, ∀ b ∈ l, a ≠ b → R a.2 b.2 := by
+  induction l with
+  | nil => simp
+  | cons v vs ih =>
+    simp only [List.map_cons, List.pairwise_cons] at h
+    intro a ha b hb hab
+    rcases List.mem_cons.1 ha with hav | ha' <;> rcases List.mem_cons.1 hb with hbv | hb'
+    · exact absurd (hav.trans hbv.symm) hab
+    · rw [hav]; exact h.1 _ (List.mem_map.2 ⟨b, hb', rfl⟩)
+    · rw [hbv]; exact hsymm _ _ (h.1 _ (List.mem_map.2 ⟨a, ha', rfl⟩))
+    · exact ih h.2 a ha' b hb' hab
+
 end DM.DupAux
